@@ -62,10 +62,19 @@ OpsOf(ty) == CASE ty = 1 -> {"set", "del", "expire"}
                [] ty = 2 -> {"hset", "hdel", "clear", "expire"}
                [] ty = 3 -> {"rpush", "lpop", "clear", "expire"}
                [] ty = 4 -> {"sadd", "srem", "clear", "expire"}
-               [] ty = 5 -> {"zadd", "zrem", "zrembyscore", "clear", "expire"}
+               [] ty = 5 -> {"zadd", "zrem", "zrembyscore", "zrembylex", "zlexcount", "zrangebylex", "clear", "expire"}
                [] ty = 6 -> {"bitset", "clear"}
                [] ty = 7 -> {"jset", "jdel"}
                [] ty = 8 -> {"pfadd", "del"}
+
+\* Lexicographic member ranges (ZRANGEBYLEX / ZLEXCOUNT / ZREMRANGEBYLEX; Redis: defined when all
+\* members have the same score - the driver only issues them then).  A bound is coded as
+\* 10 * s + i: s = 0 the unbounded side ("-" / "+"), s > 0 the sub-key with position s (its name may be
+\* the EMPTY string: "[" or "(" alone is a bound, not an unbounded side); i = 1 inclusive, 0 exclusive.
+InLex(m, a, b) ==
+  /\ (a \div 10 = 0 \/ (IF a % 10 = 1 THEN m >= a \div 10 ELSE m > a \div 10))
+  /\ (b \div 10 = 0 \/ (IF b % 10 = 1 THEN m <= b \div 10 ELSE m < b \div 10))
+LexSel(v, a, b) == SelectSeq(v, LAMBDA e : InLex(e[1], a, b))
 
 \* effect of a single-tuple command on the value v of the addressed tuple: <<new value, reply>>
 Effect(v, op, a, b) ==
@@ -83,11 +92,17 @@ Effect(v, op, a, b) ==
     [] op = "zrembyscore" ->
          << SelectSeq(v, LAMBDA e : ~(e[2] >= a /\ e[2] <= b)),
             Len(SelectSeq(v, LAMBDA e : e[2] >= a /\ e[2] <= b)) >>
+    [] op = "zrembylex"   -> << SelectSeq(v, LAMBDA e : ~InLex(e[1], a, b)), Len(LexSel(v, a, b)) >>
+    [] op = "zlexcount"   -> << v, Len(LexSel(v, a, b)) >>
+    [] op = "zrangebylex" -> << v, Len(LexSel(v, a, b)) >>     \* list reply: LexMembers
     [] op = "expire" -> << v, B2N(v # <<>>) >>
     [] op = "bitset" -> << Put(v, a, 0), B2N(Has(v, a)) >>      \* SETBIT offset 1: answers the old bit
     [] op = "jset"   -> << << <<a, 0>> >>, 0 >>                 \* JSON.SET key . number
     [] op = "jdel"   -> << <<>>, B2N(v # <<>>) >>               \* JSON.DEL key
     [] op = "pfadd"  -> << Put(v, a, 0), B2N(~Has(v, a)) >>     \* PFADD one element (exact for tiny sets)
+
+\* the list reply of ZRANGEBYLEX: the members of the range in member order
+LexMembers(v, a, b) == [i \in 1..Len(LexSel(v, a, b)) |-> LexSel(v, a, b)[i][1]]
 
 \* what a full enumeration of a tuple shows (sorted sets are listed by (score, member))
 \* HyperLogLog keys cannot be enumerated: what is read back is PFCOUNT
